@@ -9,14 +9,6 @@ open Proofs.C10.Ex (exEnv exCtx metaRoot metaLeaf metaW ctxW varX leafT unk docK
 /-- the lenient configuration of the examples -/
 def lenient : ParserConfig := { failOnUnknownProperties := false }
 
-/-! ## 1. SkipNode -/
-
-/-- **skip_subtree**: a `SkipNode` swallows any subtree (attributes, text, any depth, names
-that are known elsewhere) without producing an object or a warning, whatever the flags. -/
-theorem skip_subtree (e : BEnv) (Γ : Ctx) (cfg : ParserConfig) (t : Tree) :
-    parseNode e Γ cfg .skip t = .ok ⟨[], 0⟩ := by
-  cases t; simp [parseNode]
-
 /-! ## 2. unknown elements with `fail_on_unknown_properties = False` -/
 
 /-- **skip_invariant**: with the flag off, an element whose name is unknown for the class
@@ -148,6 +140,19 @@ example : ({} : ParserConfig).failOnUnknownProperties = true := rfl
 example : InjectedKids exEnv exCtx {} ['z'] metaRoot {} none docKids deepKids true :=
   InjectedKids.inChild (pre := [leafT ['h','i'] ['a']]) [] none none (hpre := rfl) (hw := rfl) (hchild := rfl)
     (InjectedKids.here (by decide) {} none _ _ _ _ _ [] [leafT ['5'] ['x']])
+
+/- the wrapper path of `InjectedKids`: `V(items: list[str] under wrapper <ws>)`, the unknown element
+between the items inside `<ws>` -/
+example : InjectedKids exEnv Proofs.C10.Ex.ctxV lenient ['z'] Proofs.C10.Ex.metaV {} none
+    [.node ['w','s'] [] [] none [leafT ['p'] ['i','t'], leafT ['q'] ['i','t']] none]
+    [.node ['w','s'] [] [] none [leafT ['p'] ['i','t'], unk, leafT ['q'] ['i','t']] none] true :=
+  InjectedKids.inWrapper (pre := []) [] [] [] none none (hpre := rfl) (hw := by decide)
+    (InjectedKids.here (by decide) {} (some ['w','s']) _ _ _ _ _ [leafT ['p'] ['i','t']] [leafT ['q'] ['i','t']])
+
+example : parseKids exEnv Proofs.C10.Ex.ctxV lenient Proofs.C10.Ex.metaV {} none
+      [.node ['w','s'] [] [] none [leafT ['p'] ['i','t'], unk, leafT ['q'] ['i','t']] none]
+    = .ok (⟨[(some ['i','t'], .prim (.str ['p'])), (some ['i','t'], .prim (.str ['q']))], 0⟩, ⟨[], [(['i','t'], [['w','s'], ['w','s']])]⟩) := by
+  rfl
 
 /-- **skip_invariant_deep_root**: for `NodeParser.parse` -/
 theorem skip_invariant_deep_root {e : BEnv} {Γ : Ctx} {cfg : ParserConfig} {clazz : ClassId} {uq : QN}
@@ -290,23 +295,37 @@ theorem strict_assigned_fails {e : BEnv} {Γ : Ctx} {cfg : ParserConfig} {m : Xm
 
 /-! ## 4. children of simple-typed elements are invalid content, not unknown properties -/
 
-/-- **child_in_primitive_rejected**: a child element under a `PrimitiveNode` raises
-`XmlContextError`, whatever the three flags say. -/
-theorem child_in_primitive_rejected (e : BEnv) (Γ : Ctx) (cfg : ParserConfig) (pm : XmlMeta) (var : XmlVar)
-    (ns : NsMap) (nil : Bool) (q : QN) (a : List (QN × Str)) (n : NsMap) (t tl : Option Str) (u : Tree)
-    (us : List Tree) :
-    parseNode e Γ cfg (.primitive pm var ns nil) (.node q a n t (u :: us) tl)
-      = .error (.context "Primitive node doesn't support child nodes!") := by
-  simp [parseNode]
+/-- **child_in_simple_rejected**: an element that the class binds as simple-typed content and
+that has a child element makes the parse of the children fail with `XmlContextError` — under all
+8 configurations, whatever the child is, wherever the element stands — once the siblings before
+it are parsed.  (One branch of the code per node kind: `Proofs.C10.parseNode_primitive_child`,
+`parseNode_standard_child`; the content here is the lift through the siblings.) -/
+theorem child_in_simple_rejected {e : BEnv} {Γ : Ctx} {cfg : ParserConfig} {m : XmlMeta}
+    {st st1 st' : ElState} {o1 : Out} {w : Option QN} {pre : List Tree} (post : List Tree)
+    {q : QN} {a : List (QN × Str)} {n : NsMap} (t tl : Option Str) (u : Tree) (us : List Tree) {node : Node}
+    (hpre : parseKids e Γ cfg m st w pre = .ok (o1, st1))
+    (hw : (w.isNone && m.wrappers.any (·.1 = q)) = false)
+    (hchild : childNode e Γ cfg m st1 q a n w = .ok (node, st'))
+    (hs : isSimpleNode node = true) :
+    ∃ msg, parseKids e Γ cfg m st w (pre ++ .node q a n t (u :: us) tl :: post) = .error (.context msg) := by
+  rw [parseKids_append, hpre]
+  simp only [seqKids]
+  rw [parseKids.eq_2, hw]
+  cases node with
+  | primitive pm var ns nl =>
+    exact ⟨"Primitive node doesn't support child nodes!",
+      by simp only [Bool.false_eq_true, if_false, hchild, bind, Except.bind, parseNode_primitive_child]⟩
+  | standard var dt ns nl d mx =>
+    exact ⟨"StandardNode node doesn't support child nodes!",
+      by simp only [Bool.false_eq_true, if_false, hchild, bind, Except.bind, parseNode_standard_child]⟩
+  | skip => simp [isSimpleNode] at hs
+  | wrapper x => simp [isSimpleNode] at hs
+  | wildcard v at' ns => simp [isSimpleNode] at hs
+  | element m' at' ns d xt xn => simp [isSimpleNode] at hs
 
-/-- the same under a `StandardNode` (an `xsi:type` naming a builtin datatype) -/
-theorem child_in_standard_rejected (e : BEnv) (Γ : Ctx) (cfg : ParserConfig) (var : XmlVar) (dt : PT)
-    (ns : NsMap) (nillable derived mixed : Bool) (q : QN) (a : List (QN × Str)) (n : NsMap) (t tl : Option Str)
-    (u : Tree) (us : List Tree) :
-    parseNode e Γ cfg (.standard var dt ns nillable derived mixed) (.node q a n t (u :: us) tl)
-      = .error (.context "StandardNode node doesn't support child nodes!") := by
-  simp [parseNode]
-
+/- non-vacuity: `<a>` of `R` is simple-typed; under the strict and under the lenient configuration -/
+example : (childNode exEnv exCtx {} metaRoot {} ['a'] [] [] none).map (fun p => isSimpleNode p.1) = .ok true
+    ∧ (childNode exEnv exCtx lenient metaRoot {} ['a'] [] [] none).map (fun p => isSimpleNode p.1) = .ok true := ⟨by rfl, by rfl⟩
 
 /-! ## 5. unknown attributes -/
 
